@@ -103,6 +103,26 @@ def jRef (j : Json) : Except String (String × List SqlglotModel.Ident.Ident) :=
   let a ← j.getArr?
   if h : a.size = 2 then pure (← a[0].getStr?, ← jIdents a[1]) else throw "ref"
 
+def jEnv (j : Json) : Except String CteEnv := do
+  (← j.getArr?).toList.mapM fun e => do
+    let a ← e.getArr?
+    if h : a.size = 2 then pure (← a[0].getStr?, ← a[1].getNat?) else throw "env"
+
+/-- "cte": [{"E": env, "sibs": [env…], "q": [[i, name]…]}…]  ->  per entry the list of resolved scope ids (null = none) -/
+def handleCte (j : Json) : Except String Json := do
+  let copies := SqlglotModel.Generated.C17.branchCopiesCteSources || !SqlglotModel.Generated.C17.traverseCtesUpdatesInPlace
+  let entries ← j.getArr?
+  let outs ← entries.toList.mapM fun e => do
+    let E ← jEnv (← e.getObjVal? "E")
+    let sibs ← (← (← e.getObjVal? "sibs").getArr?).toList.mapM jEnv
+    let qs ← (← (← e.getObjVal? "q").getArr?).toList.mapM fun q => do
+      let a ← q.getArr?
+      if h : a.size = 2 then pure (← a[0].getNat?, ← a[1].getStr?) else throw "q"
+    pure (Json.arr (qs.map fun (i, n) => match cteVisible copies E sibs i n with
+      | some k => Json.num k
+      | none => Json.null).toArray)
+  pure (Json.arr outs.toArray)
+
 def handle (line : String) : Except String String := do
   let j ← Json.parse line
   let scopes0 ← (← (← j.getObjVal? "scopes").getArr?).toList.mapM jScope
@@ -134,8 +154,11 @@ def handle (line : String) : Except String String := do
   let flw := cols.map fun c => leavesJson (flow scopes root (.name c))
   let all := (lineageAll cfgC scopes root cols []).map leavesJson
   let cache := (lineageAllCache cfgC scopes root cols []).map keyJson
+  let cte ← match j.getObjVal? "cte" with
+    | .ok cj => handleCte cj
+    | .error _ => pure (Json.arr #[])
   pure (Json.mkObj [("one", Json.arr one.toArray), ("unc", Json.arr unc.toArray), ("flow", Json.arr flw.toArray),
-    ("all", Json.arr all.toArray), ("cache", Json.arr cache.toArray), ("inl", Json.arr inl.toArray),
+    ("all", Json.arr all.toArray), ("cache", Json.arr cache.toArray), ("inl", Json.arr inl.toArray), ("cte", cte),
     ("root", Json.num root), ("nscopes", Json.num scopes.length)]).compress
 
 partial def loop (h : IO.FS.Stream) : IO Unit := do
